@@ -6,7 +6,13 @@
 (* sampled and v = floor(phi * scale) (infinity = 2^30).  Instants are       *)
 (* non-decreasing along s.  Between two heartbeats every sample must be      *)
 (* >= the largest earlier sample minus tol (tol = 1 unit absorbs floor()).   *)
-(* Verdict line: <<"V", id, "ACCEPT" | "PROP:phi_decreased", position>>.     *)
+(* k = 2: the threshold was queried at t, v = 1 iff is_available() (phi below *)
+(* the threshold).  T.hi is the elapsed-time bound Hi the harness derives for *)
+(* the configuration (every gap fed to the detector is <= G): a detector     *)
+(* still available Hi after its last heartbeat contradicts the envelope the  *)
+(* membership model relies on - a model assumption, reported as drift.       *)
+(* Verdict line: <<"V", id, "ACCEPT" | "PROP:phi_decreased" |                *)
+(*                 "MODEL:envelope_hi_exceeded", position>>.                 *)
 EXTENDS Integers, Sequences, TLC, Json, IOUtils
 
 Traces == JsonDeserialize(IOEnv.TRACE_FILE)
@@ -18,8 +24,17 @@ RECURSIVE FirstDrop(_, _, _, _)
 FirstDrop(s, i, mx, tol) ==
     IF i > Len(s) THEN 0
     ELSE IF s[i].k = 0 THEN FirstDrop(s, i + 1, -1, tol)
+    ELSE IF s[i].k = 2 THEN FirstDrop(s, i + 1, mx, tol)
     ELSE IF s[i].v + tol < mx THEN i
     ELSE FirstDrop(s, i + 1, IF s[i].v > mx THEN s[i].v ELSE mx, tol)
+
+\* first threshold query that is still "available" although >= hi has elapsed since the last heartbeat
+RECURSIVE FirstLenient(_, _, _, _)
+FirstLenient(s, i, last, hi) ==
+    IF i > Len(s) THEN 0
+    ELSE IF s[i].k = 0 THEN FirstLenient(s, i + 1, s[i].t, hi)
+    ELSE IF s[i].k = 2 /\ s[i].v = 1 /\ last >= 0 /\ s[i].t - last >= hi THEN i
+    ELSE FirstLenient(s, i + 1, last, hi)
 
 TimeOrdered(s) == \A i \in 1..(Len(s) - 1) : s[i].t <= s[i + 1].t
 
@@ -28,8 +43,11 @@ Next ==
     /\ ti <= NT
     /\ LET T == Traces[ti]
            d == FirstDrop(T.s, 1, -1, T.tol)
+           l == FirstLenient(T.s, 1, -1, T.hi)
        IN PrintT(<<"V", T.id, IF ~TimeOrdered(T.s) THEN "MODEL:grid_not_increasing"
-                               ELSE IF d = 0 THEN "ACCEPT" ELSE "PROP:phi_decreased", d>>)
+                               ELSE IF d # 0 THEN "PROP:phi_decreased"
+                               ELSE IF l # 0 THEN "MODEL:envelope_hi_exceeded" ELSE "ACCEPT",
+                  IF d # 0 THEN d ELSE l>>)
     /\ ti' = ti + 1
 Spec == Init /\ [][Next]_ti
 =============================================================================
